@@ -158,19 +158,40 @@ class Program:
         m = self.module(rel)
         f = m.functions.get(qualname)
         if f is None:
+            # moved to another module of the closure (a pure move keeps the qualified name): accept a unique match
+            hits = [mm.functions[qualname] for mm in self.modules.values() if qualname in mm.functions]
+            if len(hits) == 1:
+                return hits[0]
             raise AnchorMissing("function %s not found in %s" % (qualname, rel))
         return f
+
+    def func_inlined(self, rel, qualname, depth=2):
+        """The function with calls to sibling helpers expanded (see engine/inline.py); cached."""
+        key = (rel, qualname, depth)
+        cache = self.__dict__.setdefault("_inlined_cache", {})
+        if key not in cache:
+            from . import inline
+            cache[key] = inline.inlined(self, self.func(rel, qualname), depth)
+        return cache[key]
 
     def cls(self, rel, qualname):
         m = self.module(rel)
         c = m.classes.get(qualname)
         if c is None:
+            hits = [mm.classes[qualname] for mm in self.modules.values() if qualname in mm.classes]
+            if len(hits) == 1:
+                return hits[0]
             raise AnchorMissing("class %s not found in %s" % (qualname, rel))
         return c
 
     def try_func(self, rel, qualname):
         m = self.modules.get(rel)
-        return m.functions.get(qualname) if m else None
+        f = m.functions.get(qualname) if m else None
+        if f is None:
+            hits = [mm.functions[qualname] for mm in self.modules.values() if qualname in mm.functions]
+            if len(hits) == 1:
+                return hits[0]
+        return f
 
     def const(self, rel, name):
         m = self.module(rel)
